@@ -840,5 +840,12 @@ static std::string gen(Rng& rng, long, const Args& args) {
 int main(int argc, char** argv) {
   Dune::MPIHelper::instance(argc, argv);
   std::cout << std::unitbuf;
+  {
+    // number of items the translator (tools/translators/tr_c05.py) could not read from the source (fail-soft)
+    Args a = parseArgs(argc, argv);
+    int rank;
+    MPI_Comm_rank(MPI_COMM_WORLD, &rank);
+    if (rank == 0 && a.get("trfallbacks", -1) >= 0) stat("translator_fallbacks", a.get("trfallbacks", 0));
+  }
   return runMpi(argc, argv, gen, exec);
 }
